@@ -1,9 +1,36 @@
 /* C09 part 2 - the service decoder's own XDS separator and XDS decoder (src/caption.c).
  * Real unit: src/caption.c (included); linked: src/hamm.c.
- * Cut (DESIGN R2): struct teletext (46 KB member of vbi_decoder, never touched by caption.c) is replaced by a
- * dummy through the include guard of teletext_decoder.h. */
+ * Cut common to all builds (DESIGN R2): struct teletext (46 KB member of vbi_decoder, never touched by caption.c) is replaced by a
+ * dummy through the include guard of teletext_decoder.h.
+ *
+ * Two builds of this file (selected by the obligation, vlib/props/C09.py); the runner regenerates the scratch copies named below
+ * from the CURRENT /repo source on every run:
+ *
+ *  separator  -DC09_DECODER_STUB.  The complete caption.c with the real struct caption (168 KB inside vbi_decoder); only the body of
+ *             xds_decoder() is replaced (scratch copy of caption.c: its definition becomes a prototype) by a logging stub carrying
+ *             its entry contract (assert(length > 0 && length <= 32)).  The real body is decided by the caption_xds_decoder
+ *             obligations for every (class, type, length) the separator can hand over (assume-guarantee).  Measured reason: behind a
+ *             terminator the real decoder runs with a symbolic class, type and length, and xds_strfu then leaves its destination
+ *             pointer at a symbolic offset inside the 168 KB object (no verdict).
+ *
+ *  decoder    -DC09_SMALL_CC.  h_xdsdec only.
+ *             src/cc.h      scratch copy with the member `vbi_page pg[2]` of cc_channel removed (2 x 9 KB display pages per channel,
+ *                           9 channels: 157 KB that the XDS code never names), so that struct caption is 4.8 KB, vbi_decoder 10.7 KB;
+ *             src/caption.c scratch copy cut before itv_separator(), i.e. the file head, caption_send_event and the whole XDS part
+ *                           (xds_strfu, flush_prog_info, xds_decoder, xds_separator) verbatim; the display/ITV code (which needs
+ *                           pg) is left out.
+ *             Measured reason: xds_strfu's `*d = 0` after its copy loop goes through a pointer whose offset inside vbi_decoder is
+ *             symbolic (it depends on how many leading blanks were skipped); cbmc turns that one store into an update of the whole
+ *             enclosing object: with the 168 KB struct caption inside, none of the instances got a verdict in 1200 s; with the
+ *             reduced one each takes 3-60 s.
+ */
 #include "verif.h"
 #include "ref_codes.h"
+
+#ifdef C09_SMALL_CC
+#include "src/cc.h"       /* the scratch copy (the runner puts its directory first on the include path); its guard keeps the real one out */
+_Static_assert(sizeof(cc_channel) <= 256 && sizeof(struct caption) <= 8192, "C09_SMALL_CC build must see the reduced copy of src/cc.h");
+#endif
 
 #define TELETEXT_H
 #include "src/cache-priv.h"
@@ -28,9 +55,11 @@ int pthread_mutex_destroy(pthread_mutex_t *m) { (void) m; return 0; }
 
 /* ---- environment ---- */
 #define EVMAX 6
-static unsigned EVN; static int EVT[EVMAX];
-void vbi_send_event(vbi_decoder *vbi, vbi_event *ev) { (void) vbi; V_ASSERT(!mx_held, "event_sent_with_caption_mutex_released"); if (EVN < EVMAX) EVT[EVN] = ev->type; EVN++; }
-void vbi_chsw_reset(vbi_decoder *vbi, vbi_nuid nuid) { (void) vbi; (void) nuid; }
+static unsigned EVN; static int EVT[EVMAX]; static const void *EVPI[EVMAX];
+void vbi_send_event(vbi_decoder *vbi, vbi_event *ev) { (void) vbi; V_ASSERT(!mx_held, "event_sent_with_caption_mutex_released");
+  if (EVN < EVMAX) { EVT[EVN] = ev->type; EVPI[EVN] = (ev->type == VBI_EVENT_PROG_INFO) ? (const void *) ev->ev.prog_info : NULL; } EVN++; }
+static unsigned CHSW_N;
+void vbi_chsw_reset(vbi_decoder *vbi, vbi_nuid nuid) { (void) vbi; (void) nuid; CHSW_N++; }
 void vbi_reset_prog_info(vbi_program_info *pi) { int f = pi->future; memset(pi, 0, sizeof *pi); pi->future = f; pi->month = -1; pi->length_hour = -1; pi->elapsed_hour = -1;
   pi->aspect.first_line = 22; pi->aspect.last_line = 262; pi->aspect.ratio = 1.0; pi->aspect.open_subtitles = VBI_SUBT_UNKNOWN; }
 void vbi_atvef_trigger(vbi_decoder *vbi, unsigned char *s) { (void) vbi; (void) s; }
@@ -43,7 +72,24 @@ size_t _vbi_strlcpy(char *dst, const char *src, size_t size) { size_t i = 0; if 
 
 static vbi_decoder VBI;
 
-static int sp_inv(const xds_sub_packet *sp) { return sp->count == 0 || (sp->count >= 2 && sp->count <= 34); }
+#ifdef C09_DECODER_STUB
+/* xds_decoder() as the separator sees it: entry contract (its own assert) + a log of what was handed over */
+static unsigned DN; static int DCLS, DTYP, DLEN; static const uint8_t *DPTR; static uint8_t DBUF[32];
+static void xds_decoder(vbi_decoder *vbi, int _class, int type, uint8_t *buffer, int length)
+{
+  int i;
+  V_ASSERT(vbi == &VBI, "dec_vbi");
+  V_ASSERT(length > 0 && length <= 32, "dec_entry_length_1_32");      /* assert() at the top of the real function */
+  V_ASSERT(mx_held, "dec_called_with_caption_mutex_held");
+  if (DN == 0) { DCLS = _class; DTYP = type; DLEN = length; DPTR = buffer; for (i = 0; i < 32; i++) DBUF[i] = buffer[i]; }
+  DN++;
+}
+#endif
+
+/* invariant of one sub-packet: count in {0} u [2,34]; the checksum is an int here (signed overflow would be undefined): it is the sum of
+   at most count 7-bit values, 0 when the slot is empty */
+static int sp_inv(const xds_sub_packet *sp)
+{ return (sp->count == 0 && sp->chksum == 0) || (sp->count >= 2 && sp->count <= 34 && sp->chksum >= 0 && sp->chksum <= 127 * sp->count); }
 static int ref_unpar(unsigned b) { return ref_odd_parity(b) ? (int) (b & 0x7F) : -1; }
 static xds_sub_packet slot_get(int sc, int si)
 { xds_sub_packet r; unsigned c, i; memset(&r, 0, sizeof r);
@@ -58,104 +104,345 @@ static void slot_of_ptr(const xds_sub_packet *p, int *sc, int *si)
   for (c = 0; c < 4; c++) for (i = 0; i < 0x18; i++) if (p == &VBI.cc.sub_packet[c][i]) { *sc = (int) c; *si = (int) i; } }
 
 /* ---- INV-STEP on xds_separator: arbitrary sub-packet table satisfying the invariant, one byte pair (first byte on the grid) ----
- * invariant: counts in {0} u [2,34]; curr_sp NULL or a started slot of the table.
- * contract as for the stand-alone demultiplexer (h_c09.c); deliveries go to xds_decoder, whose own
- * assert(length <= 32) and bounds are part of this obligation (event_mask = 0 keeps its body short). */
+ * invariant: sp_inv for every slot; curr_sp NULL or a started slot of the table.
+ * Contract as for the stand-alone demultiplexer (h_c09.c), differences of this implementation that the property text leaves open:
+ * a header it does not store only deselects the current packet (which stays resumable).  Deliveries go to xds_decoder: with
+ * C09_DECODER_STUB the exact delivery contract (iff checksum good and >= 1 byte; class/type of the slot, length, bytes) is asserted.
+ * Encoding as in h_c09.c (one call site per value of the quantity that selects the dereferenced slot, pointer constant at the site):
+ *   S_CUR  parity error in the first byte, header of a class >= 4, terminator, content; with C2K=2 header of a stored class whose second
+ *          byte has a parity error (two such bytes): tree of call sites over the current slot (CURC: one class per instance)
+ *   S_HDR  header of a stored class, second byte with good parity: 128 call sites, one per value (types 0x00-0x17 select a slot,
+ *          0x18-0x7F are ignored); current-packet pointer symbolic (only overwritten). */
 #ifndef C1FIX
 #define C1FIX 0x41
 #endif
-V_HARNESS(h_xdssep_step)
+#define C1V ((C1FIX) < 0 ? -1 : (C1FIX))
+#define S_IS_STORED_HDR (C1V >= 1 && C1V <= 8)
+#define HC (S_IS_STORED_HDR ? ((C1V - 1) >> 1) : 0)
+#ifndef C2K
+#define C2K 1
+#endif
+#define S_HDR (S_IS_STORED_HDR && C2K == 1)
+#define S_CUR (!S_HDR)
+static xds_sub_packet OLDT[4][0x18];
+static int W_key, W_cur, T_set;
+static xds_sub_packet L_o, L_n; static int L_none, L_this;
+
+static void sep_contract_cur(int has, int cc, int ci, xds_sub_packet o, xds_sub_packet n, int c1, int c2, int now_none, int now_this)
 {
-  uint8_t pair[2]; int c1, c2, cc, ci, nc, ni, hc = -1, hi = -1, oc, oi, t_c = -1, t_i = -1; unsigned i;
-  xds_sub_packet o_cur, o_hdr, o_obs, n_cur, n_hdr, n_obs;
-  V_INIT();
-  /* VBI is a static object: zero initialised (a memset of the whole decoder costs minutes of symex) */
-  in_bytes(&VBI.cc.sub_packet[0][0], sizeof VBI.cc.sub_packet);
-  { unsigned has = in_u8(), sc = in_u8(), si = in_u8();
-    if (has & 1) { V_ASSUME(sc < 4 && si < 0x18); VBI.cc.curr_sp = slot_ptr((int) sc, (int) si); } else VBI.cc.curr_sp = NULL; }
-  pair[0] = (C1FIX < 0) ? (uint8_t) (ref_par8(-(C1FIX)) ^ 0x80) : (uint8_t) ref_par8(C1FIX); pair[1] = in_u8();
-  c1 = ref_unpar(pair[0]); c2 = ref_unpar(pair[1]);
-  /* vbi_decode_caption only hands pairs to the separator whose first byte is 0x01..0x0F, or >= 0x20 while in XDS mode, or has a parity error */
-  V_ASSUME(c1 < 0 || (c1 >= 1 && c1 <= 0x0F) || c1 >= 0x20);
-  if (c1 >= 1 && c1 <= 0x0E && c2 >= 0 && ((c1 - 1) >> 1) < 4 && c2 < 0x18) { hc = (c1 - 1) >> 1; hi = c2; }
-  oc = in_u8(); oi = in_u8(); V_ASSUME(oc < 4 && oi < 0x18);
-  slot_of_ptr(VBI.cc.curr_sp, &cc, &ci);
-  memset(&o_cur, 0, sizeof o_cur); memset(&o_hdr, 0, sizeof o_hdr);
-  if (cc >= 0) { o_cur = slot_get(cc, ci); V_ASSUME(o_cur.count >= 2 && o_cur.count <= 34); V_REACH("cur"); }
-  if (hc >= 0) { o_hdr = slot_get(hc, hi); V_ASSUME(sp_inv(&o_hdr)); }
-  o_obs = slot_get(oc, oi); V_ASSUME(sp_inv(&o_obs));
-
-  xds_separator(&VBI, pair);
-
-  slot_of_ptr(VBI.cc.curr_sp, &nc, &ni);
-  V_ASSERT(VBI.cc.curr_sp == NULL || nc >= 0, "sep_inv_curr_points_to_slot");
-  n_cur = o_cur; n_hdr = o_hdr;
-  if (cc >= 0) { n_cur = slot_get(cc, ci); V_ASSERT(sp_inv(&n_cur), "sep_inv_prev_current"); }
-  if (hc >= 0) { n_hdr = slot_get(hc, hi); V_ASSERT(sp_inv(&n_hdr), "sep_inv_header_slot"); }
-  n_obs = slot_get(oc, oi); V_ASSERT(sp_inv(&n_obs), "sep_inv_observer");
-  if (nc >= 0) V_ASSERT((nc == cc && ni == ci && n_cur.count >= 2) || (nc == hc && ni == hi && n_hdr.count >= 2), "sep_inv_current_started");
+  unsigned i;
+  V_ASSERT(now_none || (has && now_this), "sep_inv_curr_points_to_slot");
+  if (has) V_ASSERT(sp_inv(&n), "sep_inv_prev_current");
+  if (!now_none) V_ASSERT(n.count >= 2, "sep_inv_current_started");
+#ifdef C09_DECODER_STUB
+  V_ASSERT(DN <= 1, "sep_at_most_one_delivery");
+  if (!(c1 == 0x0F && c2 >= 0 && has)) V_ASSERT(DN == 0, "sep_no_delivery_without_terminator");
+#endif
   if (c1 < 0 || c2 < 0) {
-    V_ASSERT(nc < 0, "sep_parity_drops_current"); t_c = cc; t_i = ci;
-    if (cc >= 0) V_ASSERT(n_cur.count == 0, "sep_parity_clears");
-  } else if (c1 <= 0x0E) {
-    if (hc < 0) { V_ASSERT(nc < 0, "sep_unknown_header_ends_current"); V_REACH("badhdr"); }
-    else if (c1 & 1) { t_c = hc; t_i = hi; V_ASSERT(nc == hc && ni == hi && n_hdr.count == 2 && ((n_hdr.chksum ^ (c1 + c2)) & 0x7F) == 0, "sep_start_resets"); }
-    else if (o_hdr.count == 0) { t_c = hc; t_i = hi; V_ASSERT(nc < 0 && n_hdr.count == 0, "sep_continue_without_start"); }
-    else V_ASSERT(nc == hc && ni == hi, "sep_continue_selects");
+    V_ASSERT(now_none, "sep_parity_drops_current"); T_set = 1;
+    if (has) { V_ASSERT(n.count == 0 && n.chksum == 0, "sep_parity_clears"); W_key = 1; }
+  } else if (c1 <= 0x0E) {                      /* header of a class that is not stored: deselects */
+    V_ASSERT(now_none, "sep_unknown_header_ends_current");
+    if (has) W_key = 1;
   } else if (c1 == 0x0F) {
-    if (cc < 0) V_ASSERT(nc < 0, "sep_end_without_packet");
-    else { t_c = cc; t_i = ci; V_ASSERT(nc < 0 && n_cur.count == 0, "sep_end_closes"); V_REACH("end_packet"); }
-  } else {
-    if (cc < 0) V_ASSERT(nc < 0, "sep_content_ignored");
+    if (!has) V_ASSERT(now_none, "sep_end_without_packet");
     else {
-      t_c = cc; t_i = ci;
-      if (o_cur.count + 2 > 34) { V_ASSERT(nc < 0 && n_cur.count == 0, "sep_overlong_discarded"); V_REACH("overlong"); }
-      else {
-        V_ASSERT(nc == cc && ni == ci && n_cur.count == o_cur.count + 1 + (c2 != 0) && n_cur.chksum == o_cur.chksum + c1 + c2, "sep_content_count_checksum");
-        for (i = 0; i < 32; i++) {
-          if ((int) i + 2 < o_cur.count) V_ASSERT(n_cur.buffer[i] == o_cur.buffer[i], "sep_content_prefix_kept");
-          if ((int) i + 2 == o_cur.count) V_ASSERT(n_cur.buffer[i] == c1, "sep_content_byte1");
-          if ((int) i + 1 == o_cur.count && c2 != 0) V_ASSERT(n_cur.buffer[i] == c2, "sep_content_byte2");
+      T_set = 1; V_ASSERT(now_none && n.count == 0 && n.chksum == 0, "sep_end_closes");
+#ifdef C09_DECODER_STUB
+      { int good = (((o.chksum + c1 + c2) & 0x7F) == 0) && o.count > 2;
+        V_ASSERT((DN == 1) == good, "sep_deliver_iff_checksum_good");
+        if (good) {
+          V_ASSERT(DCLS == cc && DTYP == ci, "sep_deliver_class_type");
+          V_ASSERT(DLEN == o.count - 2, "sep_deliver_length");
+          for (i = 0; i < 32; i++) if ((int) i < o.count - 2) V_ASSERT(DBUF[i] == o.buffer[i], "sep_deliver_bytes");
+          if (o.count == 34) W_key = 1;
         }
-        V_REACH("content");
+      }
+#else
+      W_key = 1;
+#endif
+    }
+  } else {
+    if (!has) V_ASSERT(now_none, "sep_content_ignored");
+    else {
+      T_set = 1;
+      if (o.count + 2 > 34) V_ASSERT(now_none && n.count == 0 && n.chksum == 0, "sep_overlong_discarded");
+      else {
+        V_ASSERT(now_this && n.count == o.count + 1 + (c2 != 0) && n.chksum == o.chksum + c1 + c2, "sep_content_count_checksum");
+        for (i = 0; i < 32; i++) {
+          if ((int) i + 2 < o.count) V_ASSERT(n.buffer[i] == o.buffer[i], "sep_content_prefix_kept");
+          if ((int) i + 2 == o.count) V_ASSERT(n.buffer[i] == c1, "sep_content_byte1");
+          if ((int) i + 1 == o.count && c2 != 0) V_ASSERT(n.buffer[i] == c2, "sep_content_byte2");
+        }
+        if (n.count == 34) W_key = 1;
       }
     }
   }
-  if (!(oc == t_c && oi == t_i)) {
-    V_ASSERT(n_obs.count == o_obs.count && n_obs.chksum == o_obs.chksum, "sep_frame_count");
-    for (i = 0; i < 32; i++) V_ASSERT(n_obs.buffer[i] == o_obs.buffer[i], "sep_frame_bytes");
-    V_REACH("frame");
+}
+
+/* header of a stored class, second byte c2 (good parity): o/n = the slot it names before/after (types 0x00-0x17), else ignored */
+static void sep_contract_hdr(int c1, int c2, xds_sub_packet o, xds_sub_packet n, int now_none, int now_this)
+{
+#ifdef C09_DECODER_STUB
+  V_ASSERT(DN == 0, "sep_no_delivery_without_terminator");
+#endif
+  if (c2 >= 0x18) { V_ASSERT(now_none, "sep_unknown_header_ends_current"); return; }      /* nothing else changes: frame with T_set == 0 */
+  V_ASSERT(now_none || now_this, "sep_inv_curr_points_to_slot");
+  V_ASSERT(sp_inv(&n), "sep_inv_header_slot");
+  if (!now_none) V_ASSERT(n.count >= 2, "sep_inv_current_started");
+  if (c1 & 1) { T_set = 1; V_ASSERT(now_this && n.count == 2 && n.chksum == c1 + c2, "sep_start_resets"); if (o.count > 2) W_key = 1; }
+  else if (o.count == 0) V_ASSERT(now_none && n.count == 0 && n.chksum == 0, "sep_continue_without_start");
+  else { V_ASSERT(now_this, "sep_continue_selects"); W_key = 1; }
+}
+
+#if S_CUR
+static void sep_leaf(unsigned c, unsigned i, int cc, int ci, uint8_t *pair)
+{
+  xds_sub_packet o = VBI.cc.sub_packet[c][i];
+  V_ASSERT((int) c == cc && (int) i == ci, "harness_dispatch");
+  V_ASSUME(sp_inv(&o) && o.count >= 2); W_cur = 1;
+  VBI.cc.curr_sp = &VBI.cc.sub_packet[c][i];                      /* constant at this call site */
+  xds_separator(&VBI, pair);
+  L_o = o; L_n = VBI.cc.sub_packet[c][i]; L_none = (VBI.cc.curr_sp == NULL); L_this = (VBI.cc.curr_sp == &VBI.cc.sub_packet[c][i]);
+}
+#define LEAF(c, i) { sep_leaf((c), (i), cc, ci, pair); }
+#define T3(c, i)   { if (ci <= (i)) LEAF(c, i) else { if (ci <= (i) + 1) LEAF(c, (i) + 1) else LEAF(c, (i) + 2) } }
+#define T6(c, i)   { if (ci <= (i) + 2) T3(c, i) else T3(c, (i) + 3) }
+#define T12(c, i)  { if (ci <= (i) + 5) T6(c, i) else T6(c, (i) + 6) }
+#define T24(c)     { if (ci <= 11) T12(c, 0) else T12(c, 12) }
+#ifdef CURC
+#define T96        T24(CURC)
+#else
+#define T96        { if (cc <= 1) { if (cc <= 0) T24(0) else T24(1) } else { if (cc <= 2) T24(2) else T24(3) } }
+#endif
+#if S_IS_STORED_HDR
+static const uint8_t c2_bad[] = { 0x00, 0x41 };                    /* even parity */
+#define N_C2_BAD 2
+#endif
+#endif
+
+#if S_HDR
+/* 128 call sites, one per second byte with good parity; returns 1 when one was taken, *hi = the slot concerned */
+static int sep_hdr_sites(int c1, int c2, uint8_t *pair, int *phi)
+{
+  unsigned v;
+  for (v = 0; v < 128; v++) if (c2 == (int) v) {
+    xds_sub_packet o, n; unsigned hi = v < 0x18 ? v : 0;
+    o = VBI.cc.sub_packet[HC][hi];
+    if (v < 0x18) V_ASSUME(sp_inv(&o));
+    pair[1] = (uint8_t) ref_par8(v);                           /* constant at this call site */
+    xds_separator(&VBI, pair);
+    n = VBI.cc.sub_packet[HC][hi];
+    sep_contract_hdr(c1, (int) v, o, n, VBI.cc.curr_sp == NULL, VBI.cc.curr_sp == &VBI.cc.sub_packet[HC][hi]);
+    *phi = (int) hi;
+    return 1;
   }
+  return 0;
+}
+#endif
+
+V_HARNESS(h_xdssep_step)
+{
+  uint8_t pair[2]; int c1, c2, cc = -1, ci = -1; unsigned i, c; int o_xds, o_cycle0, o_cycle1;
+  V_INIT();
+  /* VBI is a static object: zero initialised (a memset of the whole decoder costs minutes of symex) */
+  in_bytes(&VBI.cc.sub_packet[0][0], sizeof VBI.cc.sub_packet);
+  VBI.cc.curr_sp = NULL;
+  { unsigned has = in_u8(), sc = in_u8(), si = in_u8();
+    if (has & 1) { V_ASSUME(sc < 4 && si < 0x18); cc = (int) sc; ci = (int) si;
+#ifdef CURC
+      V_ASSUME(sc == CURC);
+#endif
+    } }
+  pair[0] = (C1FIX < 0) ? (uint8_t) (ref_par8(-(C1FIX)) ^ 0x80) : (uint8_t) ref_par8(C1FIX); pair[1] = in_u8();
+  c1 = ref_unpar(pair[0]); c2 = ref_unpar(pair[1]);
+  V_ASSERT(c1 == C1V, "harness_first_byte");
+  /* vbi_decode_caption only hands pairs to the separator whose first byte is 0x01..0x0F, or >= 0x20 while in XDS mode, or has a parity error */
+  V_ASSUME(c1 < 0 || (c1 >= 1 && c1 <= 0x0F) || c1 >= 0x20);
+  VBI.cc.xds = in_u8() & 1; VBI.cc.info_cycle[0] = in_u8(); VBI.cc.info_cycle[1] = in_u8();
+  o_xds = VBI.cc.xds; o_cycle0 = VBI.cc.info_cycle[0]; o_cycle1 = VBI.cc.info_cycle[1];
+  memset(&L_o, 0, sizeof L_o); memset(&L_n, 0, sizeof L_n);
+  mx_held = 1;                                   /* vbi_decode_caption holds cc.mutex around the separator */
+
+#if S_CUR
+  { unsigned k = 0, sel = 0; (void) k; (void) sel;
+#if S_IS_STORED_HDR     /* C2K == 2: the second byte has a parity error */
+    sel = in_u8(); V_ASSUME(sel < N_C2_BAD);
+#endif
+    memcpy(OLDT, VBI.cc.sub_packet, sizeof OLDT);
+#if S_IS_STORED_HDR
+    for (k = 0; k < N_C2_BAD; k++) if (sel == k) { pair[1] = c2_bad[k]; c2 = -1;
+#endif
+      if (cc < 0) { xds_separator(&VBI, pair); L_none = (VBI.cc.curr_sp == NULL); L_this = 0; }
+      else T96
+      sep_contract_cur(cc >= 0, cc, ci, L_o, L_n, c1, c2, L_none, L_this);
+      goto called;
+#if S_IS_STORED_HDR
+    }
+#endif
+  }
+#else /* S_HDR */
+  {
+    V_ASSUME(c2 >= 0);
+    VBI.cc.curr_sp = slot_ptr(cc, ci);                           /* symbolic, only overwritten on this path */
+    if (cc >= 0) { xds_sub_packet o = slot_get(cc, ci); V_ASSUME(sp_inv(&o) && o.count >= 2); W_cur = 1; }
+    memcpy(OLDT, VBI.cc.sub_packet, sizeof OLDT);
+    if (sep_hdr_sites(c1, c2, pair, &ci)) { cc = HC; goto called; }
+  }
+#endif
+  V_ASSERT(0, "harness_one_call_site_taken");
+called:
+
+  V_ASSERT(mx_held == 1, "sep_mutex_still_held");
+  V_ASSERT(VBI.cc.xds == o_xds && VBI.cc.info_cycle[0] == o_cycle0 && VBI.cc.info_cycle[1] == o_cycle1, "sep_neighbour_members_untouched");
+  /* frame: the interrupted packet stays as it was (resumable), no other slot is touched */
+  for (c = 0; c < 4; c++)
+    for (i = 0; i < 0x18; i++)
+      if (!(T_set && (int) c == cc && (int) i == ci)) {
+        xds_sub_packet a = VBI.cc.sub_packet[c][i], b = OLDT[c][i]; unsigned j; int same = 1;
+        V_ASSERT(a.count == b.count && a.chksum == b.chksum, "sep_frame_count");
+        for (j = 0; j < 32; j++) same &= (a.buffer[j] == b.buffer[j]);
+        V_ASSERT(same, "sep_frame_bytes");
+      }
+  if (W_cur) V_REACH("cur");
+  if (W_key) V_REACH("key");
   V_END();
 }
 
-/* ---- xds_decoder: every (class, type) with an arbitrary payload of every legal length: memory safety of the programme/network
- * info updates, title copied exactly ---- */
+/* ---- xds_decoder: one (class, type, length) per instance (all three on the grid: the decoder switches on class and type, the
+ * length drives its copy loops), payload arbitrary, programme/network information arbitrary (strings NUL terminated as the decoder
+ * leaves them).  Decided: memory safety incl. a frame written in the harness (R14: cbmc does not see an overflow from one member
+ * of vbi_decoder into the next), exact result for the string fields (title, description lines, network name, call letters:
+ * leading blanks skipped, control codes as blanks, NUL terminated) and the plain numeric fields (PIN, length/elapsed, CGMS-A,
+ * tape delay), event discipline (only ASPECT/PROG_INFO/NETWORK/NETWORK_ID, PROG_INFO carries the class's record, sent with the
+ * caption mutex released and re-taken). ---- */
 #ifndef XCLS
 #define XCLS 0
+#endif
+#ifndef XTYP
+#define XTYP 3
 #endif
 #ifndef XLEN
 #define XLEN 32
 #endif
+#if defined(C09_SMALL_CC) && !defined(C09_DECODER_STUB)
+/* reference for xds_strfu: skip leading bytes <= 0x20, bytes < 0x20 become blanks, NUL terminated */
+static unsigned ref_str(uint8_t *d, const uint8_t *s, unsigned len)
+{ unsigned k = 0, n = 0; while (k < len && s[k] <= 0x20) k++; for (; k < len; k++) d[n++] = s[k] < 0x20 ? 0x20 : s[k]; d[n] = 0; return n; }
+#define HEAD_SIZE (offsetof(vbi_decoder, vt))
+#define IN_MEMBER(off, m) ((off) >= offsetof(vbi_decoder, m) && (off) < offsetof(vbi_decoder, m) + sizeof VBI.m)
+
+/* every byte of the decoder head (all members in front of the Teletext/caption state) outside the write-set of this class/type is unchanged */
+static uint8_t head0[HEAD_SIZE], head1[HEAD_SIZE];
+static void frame_head(void)
+{
+  unsigned i;
+  for (i = 0; i < HEAD_SIZE; i++) {
+    int may = 0;
+    if (XCLS <= 1) { may = (i >= offsetof(vbi_decoder, prog_info) + (XCLS & 1) * sizeof (vbi_program_info) && i < offsetof(vbi_decoder, prog_info) + ((XCLS & 1) + 1) * sizeof (vbi_program_info));
+      if (XTYP == 9) may = may || IN_MEMBER(i, prog_info[0].aspect) || IN_MEMBER(i, aspect_source); }
+    if (XCLS == 2) may = IN_MEMBER(i, network);
+    if (!may) V_ASSERT(head0[i] == head1[i], "dec_frame_decoder_head");
+  }
+}
+
 V_HARNESS(h_xdsdec)
 {
-  uint8_t buf[33]; int type; unsigned i;
+  uint8_t buf[33], want[34], lsel[12]; unsigned i, nwant;
+  static vbi_program_info pi0; static vbi_network n0; static cc_channel ch0[9], ch1[9]; int o_cyc[2];
+  vbi_program_info *pi = &VBI.prog_info[XCLS & 1]; vbi_network *n = &VBI.network.ev.network;
   V_INIT();
-  /* VBI is a static object: zero initialised (a memset of the whole decoder costs minutes of symex) */
+  /* VBI is a static object: zero initialised */
   VBI.event_mask = VBI_EVENT_ASPECT | VBI_EVENT_PROG_INFO | VBI_EVENT_NETWORK | VBI_EVENT_NETWORK_ID;
-  VBI.prog_info[1].future = 1;
-  in_bytes(buf, 33); for (i = 0; i < 33; i++) buf[i] &= 0x7F;
-  type = in_u8() % 0x18;
-  in_bytes(&VBI.prog_info[XCLS & 1].title[0], 16);
-  VBI.cc.info_cycle[0] = in_u8(); VBI.cc.info_cycle[1] = in_u8();
-  { int k; for (k = 0; k < 0x18; k++) if (k == type) xds_decoder(&VBI, XCLS, k, buf, XLEN); }
-  if (XCLS <= 1 && type == 3 && XLEN >= 2) {
-    /* programme name: leading blanks skipped, control codes shown as blanks, NUL terminated */
-    unsigned s = 0, n = 0; const vbi_program_info *pi = &VBI.prog_info[XCLS & 1];
-    while (s < XLEN && buf[s] <= 0x20) s++;
-    for (; s < XLEN; s++, n++) V_ASSERT((uint8_t) pi->title[n] == (buf[s] < 0x20 ? 0x20 : buf[s]), "xds_title_bytes");
-    V_ASSERT(pi->title[n] == 0, "xds_title_terminated");
-    V_REACH("title");
+  in_bytes(buf, 33); for (i = 0; i < 33; i++) buf[i] &= 0x7F;            /* the separator stores parity-stripped bytes */
+  /* arbitrary programme information of both classes, arbitrary network record */
+  in_bytes(&VBI.prog_info[0], sizeof VBI.prog_info[0]); in_bytes(&VBI.prog_info[1], sizeof VBI.prog_info[1]);
+  in_bytes(n, sizeof *n);
+  in_bytes(lsel, 12);
+  for (i = 0; i < 2; i++) { unsigned k;
+    VBI.prog_info[i].future = i;                                              /* set by vbi_init / event activation, never changed */
+    for (k = 0; k < 2; k++) VBI.prog_info[i].audio[k].language = NULL;
+    for (k = 0; k < 8; k++) VBI.prog_info[i].caption_language[k] = NULL; }
+  /* language pointers: NULL or one of the decoder's own strings */
+  for (i = 0; i < 2; i++) if (lsel[i] & 8) pi->audio[i].language = (unsigned char *) language[lsel[i] & 7];
+  for (i = 0; i < 8; i++) if (lsel[2 + i] & 8) pi->caption_language[i] = (unsigned char *) language[lsel[2 + i] & 7];
+  /* strings are NUL terminated (the decoder only ever stores them through xds_strfu / vbi.c strlcpy) */
+  V_ASSUME(n->call[39] == 0);
+  VBI.cc.info_cycle[0] = (int) in_u32(); VBI.cc.info_cycle[1] = (int) in_u32();
+  o_cyc[0] = VBI.cc.info_cycle[0]; o_cyc[1] = VBI.cc.info_cycle[1];
+  pi0 = *pi; n0 = *n;
+  memcpy(head0, &VBI, HEAD_SIZE);
+  for (i = 0; i < 9; i++) ch0[i] = VBI.cc.channel[i];
+  mx_held = 1;
+
+  xds_decoder(&VBI, XCLS, XTYP, buf, XLEN);
+
+  V_ASSERT(mx_held == 1, "dec_mutex_still_held");
+  memcpy(head1, &VBI, HEAD_SIZE);
+  for (i = 0; i < 9; i++) ch1[i] = VBI.cc.channel[i];
+  /* ---- frame ---- */
+  frame_head();
+  for (i = 0; i < 9; i++) {
+    V_ASSERT(ch0[i].mode == ch1[i].mode && ch0[i].col == ch1[i].col && ch0[i].col1 == ch1[i].col1 && ch0[i].row == ch1[i].row && ch0[i].row1 == ch1[i].row1
+             && ch0[i].roll == ch1[i].roll && ch0[i].nul_ct == ch1[i].nul_ct && ch0[i].line == ch1[i].line && ch0[i].hidden == ch1[i].hidden, "dec_frame_channels");
+    if (!(XCLS == 0 && XTYP == 7 && i < 8)) V_ASSERT(ch0[i].language == ch1[i].language, "dec_frame_channel_language");
   }
+  V_ASSERT(VBI.cc.curr_sp == NULL && VBI.cc.xds == 0 && VBI.cc.itv_count == 0, "dec_frame_caption_members");
+  if (XCLS <= 1) V_ASSERT(VBI.cc.info_cycle[1 - (XCLS & 1)] == o_cyc[1 - (XCLS & 1)], "dec_frame_other_info_cycle");
+  else V_ASSERT(VBI.cc.info_cycle[0] == o_cyc[0] && VBI.cc.info_cycle[1] == o_cyc[1], "dec_frame_info_cycle");
+  /* ---- events ---- */
+  V_ASSERT(EVN <= 3, "dec_event_count");
+  for (i = 0; i < EVMAX; i++) if (i < EVN) {
+    if (XCLS <= 1) { V_ASSERT(EVT[i] == VBI_EVENT_ASPECT || EVT[i] == VBI_EVENT_PROG_INFO, "dec_event_kind_program");
+      if (EVT[i] == VBI_EVENT_PROG_INFO) V_ASSERT(EVPI[i] == (const void *) pi, "dec_prog_info_event_carries_class_record"); }
+    else if (XCLS == 2) V_ASSERT(XTYP == 1 && (EVT[i] == VBI_EVENT_NETWORK || EVT[i] == VBI_EVENT_NETWORK_ID), "dec_event_kind_network");
+    else V_ASSERT(0, "dec_no_event_for_misc");
+  }
+  if (!(XCLS == 2 && XTYP == 1)) V_ASSERT(CHSW_N == 0, "dec_no_channel_switch");
+  V_ASSERT(pi->future == (XCLS & 1), "dec_future_flag_kept");
+  /* ---- content ---- */
+  nwant = ref_str(want, buf, XLEN);
+  if (XCLS <= 1 && XTYP == 3 && XLEN >= 2) {
+    for (i = 0; i <= 32; i++) if (i <= nwant) V_ASSERT((uint8_t) pi->title[i] == want[i], "xds_title_bytes");
+    V_REACH("string");
+  }
+  if (XCLS <= 1 && XTYP >= 0x10 && XTYP <= 0x17) {
+    unsigned l;
+    for (i = 0; i <= 32; i++) if (i <= nwant) V_ASSERT((uint8_t) pi->description[XTYP & 7][i] == want[i], "xds_description_bytes");
+    for (l = 0; l < 8; l++) if (l != (XTYP & 7)) for (i = 0; i < 33; i++) V_ASSERT(pi->description[l][i] == pi0.description[l][i], "xds_other_description_lines_kept");
+    V_REACH("string");
+  }
+  if (XCLS <= 1 && XTYP == 1 && XLEN == 4) {
+    int month = buf[3] & 15, day = buf[2] & 31, hour = buf[1] & 31, min = buf[0] & 63;
+    if (month >= 1 && month <= 12 && day >= 1 && hour <= 23 && min <= 59) {
+      V_ASSERT(pi->month == month - 1 && pi->day == day - 1 && pi->hour == hour && pi->min == min && pi->tape_delayed == !!(buf[3] & 0x10), "xds_pin_fields");
+      V_REACH("pin");
+    } else V_ASSERT(pi->month == pi0.month && pi->day == pi0.day && pi->hour == pi0.hour && pi->min == pi0.min, "xds_invalid_pin_ignored");
+  }
+  if (XCLS <= 1 && XTYP == 2 && XLEN >= 2 && XLEN <= 6) {
+    int lmin = buf[0] & 63, lhour = buf[1] & 63, emin = XLEN >= 3 ? (buf[2] & 63) : -1, ehour = XLEN >= 3 ? (buf[3] & 63) : -1, esec = XLEN >= 5 ? (buf[4] & 63) : 0;
+    if (lmin <= 59 && emin <= 59 && esec <= 59) {
+      V_ASSERT(pi->length_hour == lhour && pi->length_min == lmin && pi->elapsed_hour == ehour && pi->elapsed_min == emin && pi->elapsed_sec == esec, "xds_length_fields");
+      V_REACH("length");
+    } else V_ASSERT(pi->length_hour == pi0.length_hour && pi->length_min == pi0.length_min && pi->elapsed_min == pi0.elapsed_min, "xds_invalid_length_ignored");
+  }
+  if (XCLS <= 1 && XTYP == 8 && XLEN == 1) V_ASSERT(pi->cgms_a == (buf[0] & 63), "xds_cgms");
+  if (XCLS <= 1 && XTYP == 4) {
+    for (i = 0; i < 33; i++) { if (i < XLEN) V_ASSERT(pi->type_id[i] == buf[i], "xds_type_ids"); if (i == XLEN) V_ASSERT(pi->type_id[i] == 0, "xds_type_ids_terminated"); }
+    V_ASSERT(pi->type_classf == VBI_PROG_CLASSF_EIA_608, "xds_type_classf");
+  }
+  if (XCLS <= 1 && XTYP != 3) for (i = 0; i < 64; i++) V_ASSERT(pi->title[i] == pi0.title[i] || (XTYP == 1 && XLEN == 4), "xds_title_kept_by_other_types");
+  if (XCLS == 2 && XTYP == 1) {
+    for (i = 0; i <= 32; i++) if (i <= nwant) V_ASSERT((uint8_t) n->name[i] == want[i], "xds_network_name_bytes");
+    for (i = 0; i < 40; i++) V_ASSERT(n->call[i] == n0.call[i], "xds_call_kept_by_name");
+    V_REACH("string");
+  }
+  if (XCLS == 2 && XTYP == 2) {
+    for (i = 0; i <= 32; i++) if (i <= nwant) V_ASSERT((uint8_t) n->call[i] == want[i], "xds_call_letters_bytes");
+    V_REACH("string");
+  }
+  if (XCLS == 2 && XTYP == 3 && XLEN == 2) V_ASSERT(n->tape_delay == (buf[1] & 31) * 60 + (buf[0] & 63), "xds_tape_delay");
+  if (XCLS == 2 && XTYP != 1 && XTYP != 2) { for (i = 0; i < 64; i++) V_ASSERT(n->name[i] == n0.name[i], "xds_name_kept"); for (i = 0; i < 40; i++) V_ASSERT(n->call[i] == n0.call[i], "xds_call_kept"); }
   V_END();
 }
+#endif
